@@ -18,6 +18,55 @@ type Space struct {
 	Suffix string
 	// Prefix is put in front of every token sequence.
 	Prefix string
+	// Ambiguous marks an alphabet that is deliberately not uniquely decodable
+	// (whole constructs next to their pieces). Its inputs are enumerated through
+	// Canonical: of all token sequences that spell the same byte string only the
+	// one with the fewest tokens (the lexicographically first among those) is
+	// executed, so executions are still distinct inputs.
+	Ambiguous bool
+}
+
+// Canonical reports whether the token sequence seq (indices into s.Tokens) is
+// the canonical spelling of the byte string it produces.
+func (s Space) Canonical(seq []int) bool {
+	var str string
+	for _, k := range seq {
+		str += s.Tokens[k]
+	}
+	// best[i]: canonical tokenization of str[i:], nil if none
+	n := len(str)
+	best := make([][]int, n+1)
+	ok := make([]bool, n+1)
+	ok[n] = true
+	best[n] = []int{}
+	for i := n - 1; i >= 0; i-- {
+		for k, t := range s.Tokens {
+			if len(t) <= n-i && str[i:i+len(t)] == t && ok[i+len(t)] {
+				cand := append([]int{k}, best[i+len(t)]...)
+				if !ok[i] || len(cand) < len(best[i]) || (len(cand) == len(best[i]) && lessInts(cand, best[i])) {
+					best[i], ok[i] = cand, true
+				}
+			}
+		}
+	}
+	if !ok[0] || len(best[0]) != len(seq) {
+		return false
+	}
+	for i := range seq {
+		if seq[i] != best[0][i] {
+			return false
+		}
+	}
+	return true
+}
+
+func lessInts(a, b []int) bool {
+	for i := range a {
+		if a[i] != b[i] {
+			return a[i] < b[i]
+		}
+	}
+	return false
 }
 
 func sp(name, doc string, toks ...string) Space { return Space{Name: name, Tokens: toks, Doc: doc} }
@@ -216,6 +265,9 @@ func setKey(m map[string]bool) string {
 // SelfTest checks every declared space.
 func SelfTest() error {
 	for _, s := range All {
+		if s.Ambiguous {
+			continue
+		}
 		if err := UniquelyDecodable(s.Tokens); err != nil {
 			return fmt.Errorf("space %s: %v", s.Name, err)
 		}
